@@ -100,6 +100,27 @@ structure MState where
 
 def MState.inited (m : MState) : Bool := if m.sub then m.sk.isSome else m.wl.isSome
 
+/-- `M.m.p[-pre]`; `none` when the string is not of that shape (the generator only emits strings on
+which this and the `semver` crate agree). -/
+def parseSemVer (s : String) : Option Cw1Subkeys.SemVer :=
+  match s.splitOn "-" with
+  | main :: rest =>
+    let pre := if rest.isEmpty then none else some ("-".intercalate rest)
+    match main.splitOn "." with
+    | [x, y, z] => do
+      let a ← x.toNat?; let b ← y.toNat?; let c ← z.toNat?
+      pure ⟨a, b, c, pre⟩
+    | _ => none
+  | [] => none
+
+def renderSemVer (v : Cw1Subkeys.SemVer) : String :=
+  s!"{v.major}.{v.minor}.{v.patch}" ++ (match v.pre with | some p => "-" ++ p | none => "")
+
+/-- `name/version` (`?` for a version string that is not a semantic version), `-` when absent -/
+def renderCw2 : Option Cw1Subkeys.Cw2 → String
+  | none => "-"
+  | some c => s!"{c.contract}/{match c.version with | some v => renderSemVer v | none => "?"}"
+
 open Paginate in
 def obsOf (m : MState) : Args :=
   if m.sub then
@@ -120,7 +141,8 @@ def obsOf (m : MState) : Args :=
       [("admins", joinC s.cfg.admins), ("mutable", toString s.cfg.mutable),
        ("allow", joinC allow), ("lallow", ra lallow), ("rallow", ra raw),
        ("perm", joinC perm),
-       ("lperm", joinC ((sortedEntries strLt s.permissions).map fun p => s!"{p.1}:{renderPerm p.2}"))]
+       ("lperm", joinC ((sortedEntries strLt s.permissions).map fun p => s!"{p.1}:{renderPerm p.2}")),
+       ("cw2", renderCw2 s.cw2)]
   else
     match m.wl with
     | none => [("uninit", "1")]
@@ -169,6 +191,24 @@ def stepOp (m : MState) (toks : List String) : MState × StepResult :=
       match Cw1Whitelist.instantiate msg with
       | .ok s => ({ m with wl := some s }, { ok := some true, tag := "inst.ok" })
       | .error e => err m s!"inst.{e}"
+  | "inst_legacy" :: rest =>
+    -- subkeys only: the real `instantiate`, then the cw2 item as an older / foreign code version left it
+    let a := args rest
+    let msg : Cw1Whitelist.InstMsg := { admins := (a.list "admins").map addrArg, mutable := a.str "mutable" == "true" }
+    if m.inited || !m.sub then err m "inst.twice"
+    else
+      match Cw1Subkeys.instantiate msg with
+      | .ok s =>
+        let cw2 := (a.optStr "ver").map fun v => (⟨a.str "name", parseSemVer v⟩ : Cw1Subkeys.Cw2)
+        ({ m with sk := some { s with cw2 := cw2 } }, { ok := some true, tag := "inst_legacy.ok" })
+      | .error e => err m s!"inst_legacy.{e}"
+  | "migrate" :: _ =>
+    match m.sk with
+    | none => err m "uninit"
+    | some s =>
+      match Cw1Subkeys.migrate s with
+      | .ok s' => ({ m with sk := some s' }, { ok := some true, tag := if s'.cw2 == s.cw2 then "migrate.ok.kept" else "migrate.ok.set" })
+      | .error e => err m s!"migrate.{e}"
   | "exec" :: snd :: kind :: rest =>
     if m.sub then
       match m.sk with
